@@ -205,6 +205,7 @@ void scen_c20(mt_case * c) {
   }
   mt_hash(c->prog.p, c->prog.pos);
   myth_verif_clock_fn = vclock;
+  mt_allow_prelude = 1;
   mt_lib_start(c, &e, 0);
   MT_DIRTY(Z.m); MT_DIRTY(Z.free_m); Z0(myth_mutex_init(&Z.m, 0)); for (int i = 0; i < 8; i++) Z0(myth_mutex_init(&Z.free_m[i], 0));
   myth_thread_t th[8], sib = 0;
